@@ -33,6 +33,10 @@ impl<const TOTAL_NUM_BITS: u32, const NUM_INDEX_BITS: u32>
     /// `pa.tick()` advances the phase accumulator by 1 tick, expected to be called at the sample rate
     pub fn tick(&mut self) {
         self.accumulator += self.increment;
+        // passing the top of the range is a rollover even if the wrapped value does not end up below the last one
+        if self.rollover_mask < self.accumulator {
+            self.rolled_over = true;
+        }
         self.accumulator &= self.rollover_mask;
 
         if self.accumulator < self.last_accumulator {
